@@ -129,57 +129,56 @@ ExtendMenu  == <<<<<<"c", <<"s", V2>>>>>>, <<<<"a", <<"s", V2>>>>, <<"c", <<"l",
 SetMenu     == <<<<"a", <<"s", V2>>>>, <<"c", <<"l", <<V1, None>>>>>>, <<"y", <<"s", VStr("p")>>>>>>
 
 \* ---- the actions: one public call each ------------------------------------------------------------------
-NewX    == \E rd \in {"r1", "r2"} : \E k \in DOMAIN XSeeds :
+More == Len(hist) < MaxDepth          \* a session has at most MaxDepth calls
+NewX    == More /\ \E rd \in (IF Live = {} THEN {"r1"} ELSE {"r1", "r2"}) : \E k \in DOMAIN XSeeds :      \* the first table goes to r1 (the registers are alike)
                Alloc(rd, XConstruct(XSeeds[k]), [op |-> "NewX", rd |-> rd, seed |-> XSeeds[k]])
-Extend  == \E r \in Live : \E k \in DOMAIN ExtendMenu :
+Extend  == More /\ \E r \in Live : \E k \in DOMAIN ExtendMenu :
                Alloc(NextReg(r), XExtendT(T(r), ExtendMenu[k]), [op |-> "Extend", r |-> r, rd |-> NextReg(r), extra |-> ExtendMenu[k]])
-Get     == \E r \in Live : \E k \in DOMAIN GetMenu :
+Get     == More /\ \E r \in Live : \E k \in DOMAIN GetMenu :
                Read(XGetT(T(r), GetMenu[k][1], GetMenu[k][2]), [op |-> "Get", r |-> r, c |-> GetMenu[k][1], dflt |-> GetMenu[k][2]])
-GetAttr == \E r \in Live : \E k \in DOMAIN GetAttrMenu :
+GetAttr == More /\ \E r \in Live : \E k \in DOMAIN GetAttrMenu :
                Read(XGetAttrT(T(r), GetAttrMenu[k][1], GetAttrMenu[k][2]), [op |-> "GetAttr", r |-> r, c |-> GetAttrMenu[k][1], dflt |-> GetAttrMenu[k][2]])
-TupleGet == \E r \in Live : \E k \in DOMAIN TupleMenu :
+TupleGet == More /\ \E r \in Live : \E k \in DOMAIN TupleMenu :
                Read(XTupleGetT(T(r), TupleMenu[k]), [op |-> "TupleGet", r |-> r, items |-> TupleMenu[k]])
-Apply   == \E r \in Live : \E k \in DOMAIN ApplyMenu :
+Apply   == More /\ \E r \in Live : \E k \in DOMAIN ApplyMenu :
                Read(XApplyT(T(r), ApplyMenu[k].fn, ApplyMenu[k].defs), [op |-> "Apply", r |-> r, fn |-> ApplyMenu[k].fn, defs |-> ApplyMenu[k].defs])
-IfElse  == \E r \in Live : \E k \in DOMAIN IfElseMenu : LET m == IfElseMenu[k] IN
+IfElse  == More /\ \E r \in Live : \E k \in DOMAIN IfElseMenu : LET m == IfElseMenu[k] IN
                Read(XIfElseT(T(r), m.cond, m.a, m.b, m.defs), [op |-> "IfElse", r |-> r, cond |-> m.cond, a |-> m.a, b |-> m.b, defs |-> m.defs])
-Repr    == \E r \in Live : Read(XReprT(T(r)), [op |-> "Repr", r |-> r])
-DictConcat == \E k \in DOMAIN ConcatMenu : Read(XQOk(XDictConcatV(ConcatMenu[k])), [op |-> "DictConcat", recs |-> ConcatMenu[k]])
-DictConcatRows == \E r \in Live : Read(XQOk(XDictConcatRowsV(T(r))), [op |-> "DictConcatRows", r |-> r])
-Call    == \E r \in Live : \E k \in DOMAIN CallMenu :
+Repr    == More /\ \E r \in Live : Read(XReprT(T(r)), [op |-> "Repr", r |-> r])
+DictConcat == More /\ \E k \in DOMAIN ConcatMenu : Read(XQOk(XDictConcatV(ConcatMenu[k])), [op |-> "DictConcat", recs |-> ConcatMenu[k]])
+DictConcatRows == More /\ \E r \in Live : Read(XQOk(XDictConcatRowsV(T(r))), [op |-> "DictConcatRows", r |-> r])
+Call    == More /\ \E r \in Live : \E k \in DOMAIN CallMenu :
                Alloc(NextReg(r), XCallT(T(r), CallMenu[k]), [op |-> "Call", r |-> r, rd |-> NextReg(r), kws |-> CallMenu[k]])
-DoX     == \E r \in Live : \E k \in DOMAIN DoMenu : LET m == DoMenu[k] IN
+DoX     == More /\ \E r \in Live : \E k \in DOMAIN DoMenu : LET m == DoMenu[k] IN
                /\ Range(m.cs) \subseteq ColSet(T(r))
                /\ Alloc(NextReg(r), XDoXT(T(r), m.fs, m.cs, m.star), [op |-> "DoX", r |-> r, rd |-> NextReg(r), fs |-> m.fs, cs |-> m.cs, star |-> m.star])
-Relabel == \E r \in Live : \E k \in DOMAIN RelabelMenu :
+Relabel == More /\ \E r \in Live : \E k \in DOMAIN RelabelMenu :
                Alloc(NextReg(r), XRelabelT(T(r), RelabelMenu[k]), [op |-> "Relabel", r |-> r, rd |-> NextReg(r), form |-> RelabelMenu[k]])
-Unpivot == \E r \in Live : \E k \in DOMAIN UnpivotMenu : LET m == UnpivotMenu[k] IN
+Unpivot == More /\ \E r \in Live : \E k \in DOMAIN UnpivotMenu : LET m == UnpivotMenu[k] IN
                Alloc(NextReg(r), XUnpivotT(T(r), m.xs, m.y, m.z, m.ysel), [op |-> "Unpivot", r |-> r, rd |-> NextReg(r), xs |-> m.xs, y |-> m.y, z |-> m.z, ysel |-> m.ysel])
-Xyz     == \E r \in Live : \E k \in DOMAIN XyzMenu : LET m == XyzMenu[k] IN
+Xyz     == More /\ \E r \in Live : \E k \in DOMAIN XyzMenu : LET m == XyzMenu[k] IN
                /\ XyzDomain(T(r), m.xs, m.y)
                /\ Alloc(NextReg(r), XyzT(T(r), m.xs, m.y, m.z, m.agg), [op |-> "Xyz", r |-> r, rd |-> NextReg(r), xs |-> m.xs, y |-> m.y, z |-> m.z, agg |-> m.agg])
-UpdateFrom == \E r \in Live, r2 \in Live :
+UpdateFrom == More /\ \E r \in Live, r2 \in Live :
                InPlace(r, XUpdateFromT(T(r), T(r2)), [op |-> "UpdateFrom", r |-> r, r2 |-> r2])
-IfNone  == \E r \in Live : \E k \in DOMAIN IfNoneMenu :
+IfNone  == More /\ \E r \in Live : \E k \in DOMAIN IfNoneMenu :
                LET m == IfNoneMenu[k]   res == XIfNoneT(T(r), m.none, m.kws)   rd == NextReg(r) IN
                /\ hist' = Append(hist, [op |-> "IfNone", r |-> r, rd |-> rd, none |-> m.none, kws |-> m.kws])
                /\ out' = IF res.err = "ok" THEN XOutOk ELSE XOutExc(res.err)
                /\ IF res.err # "ok" THEN heap' = [heap EXCEPT ![reg[r]] = res.self] /\ reg' = reg
                   ELSE IF res.alias THEN heap' = [heap EXCEPT ![reg[r]] = res.self] /\ reg' = [reg EXCEPT ![rd] = reg[r]]
                   ELSE heap' = Append([heap EXCEPT ![reg[r]] = res.self], res.res) /\ reg' = [reg EXCEPT ![rd] = Len(heap) + 1]
-SetCol  == \E r \in Live : \E k \in DOMAIN SetMenu :
+SetCol  == More /\ \E r \in Live : \E k \in DOMAIN SetMenu :
                LET res == SetColT(T(r), SetMenu[k][1], SetMenu[k][2]) IN
                InPlace(r, IF res.ok THEN res ELSE [ok |-> FALSE, t |-> T(r), err |-> res.err], [op |-> "SetCol", r |-> r, c |-> SetMenu[k][1], arg |-> SetMenu[k][2]])
-DelCol  == \E r \in Live, c \in {"a", "y"} :
+DelCol  == More /\ \E r \in Live, c \in {"a", "y"} :
                LET res == DelColT(T(r), c) IN
                InPlace(r, IF res.ok THEN res ELSE [ok |-> FALSE, t |-> T(r), err |-> res.err], [op |-> "DelCol", r |-> r, c |-> c])
-Copy    == \E r \in Live : Alloc(NextReg(r), Ok(T(r)), [op |-> "Copy", r |-> r, rd |-> NextReg(r)])
+Copy    == More /\ \E r \in Live : Alloc(NextReg(r), Ok(T(r)), [op |-> "Copy", r |-> r, rd |-> NextReg(r)])
 
 Init == heap = <<>> /\ reg = [r \in Regs |-> 0] /\ out = XOutOk /\ hist = <<>>
 Next == NewX \/ Extend \/ Get \/ GetAttr \/ TupleGet \/ Apply \/ IfElse \/ Repr \/ DictConcat \/ DictConcatRows
         \/ Call \/ DoX \/ Relabel \/ Unpivot \/ Xyz \/ UpdateFrom \/ IfNone \/ SetCol \/ DelCol \/ Copy
-\* the model-checking configurations stop at MaxDepth calls (the generators use Next and cut with a CONSTRAINT)
-BNext == Len(hist) < MaxDepth /\ Next
 Bound == Len(hist) <= MaxDepth /\ \A o \in 1..Len(heap) : Len(heap[o].rows) <= MaxRowsC
 View == <<heap, reg, out>>
 
